@@ -11,6 +11,17 @@ use crate::bridge::*;
 use crate::gen::{generate, GenCfg};
 use crate::pipeline::*;
 use crate::rng::fnv64;
+use crate::vals::*;
+
+fn mentions_alias(t: &Ty) -> bool {
+    match t {
+        Ty::Alias(_) => true,
+        Ty::Tuple(ts) => ts.iter().any(mentions_alias),
+        Ty::Array(x, _) | Ty::List(x, _) | Ty::Option(x) => mentions_alias(x),
+        Ty::Either(l, r) => mentions_alias(l) || mentions_alias(r),
+        _ => false,
+    }
+}
 
 pub fn base64(data: &[u8]) -> String {
     const T: &[u8; 64] = b"ABCDEFGHIJKLMNOPQRSTUVWXYZabcdefghijklmnopqrstuvwxyz0123456789+/";
@@ -114,6 +125,40 @@ pub fn run(cx: &mut Ctx) {
         match prepare(cx, g, &mut rng, &Style::plain()) {
             Ok(p) => {
                 let mut t = p.text().to_string();
+                if i % 3 == 1 {
+                    // twin functions: a copy of a function with two same-typed parameters under
+                    // another name and with the two parameter names exchanged (same parameter
+                    // types, same body text, other meaning), called from main as well
+                    let mut q = p.prog.clone();
+                    let pick = q.items.iter().enumerate().find_map(|(k, it)| match it {
+                        Item::Func(f) if f.name != "main" && f.params.iter().all(|(_, t)| !mentions_alias(t)) => {
+                            let n = f.params.len();
+                            (0..n).flat_map(|a| (a + 1..n).map(move |b| (a, b))).find(|(a, b)| f.params[*a].1 == f.params[*b].1).map(|(a, b)| (k, a, b))
+                        }
+                        _ => None,
+                    });
+                    if let Some((k, a, b)) = pick {
+                        if let Item::Func(f) = q.items[k].clone() {
+                            let mut g = f.clone();
+                            g.name = format!("{}_twin", f.name);
+                            let (na, nb) = (g.params[a].0.clone(), g.params[b].0.clone());
+                            g.params[a].0 = nb;
+                            g.params[b].0 = na;
+                            let args: Vec<Expr> = g.params.iter().map(|(_, t)| val_to_expr(&random_val(t, &mut rng), &mut |_| IntStyle::Dec)).collect();
+                            let ret = g.ret.clone().unwrap_or(Ty::unit());
+                            let call = Stmt::Let(Pat::Ignore, ret, Expr::call(CallName::Fn(g.name.clone()), args));
+                            q.items.insert(k + 1, Item::Func(g));
+                            if let Some(Item::Func(m)) = q.items.iter_mut().find(|it| matches!(it, Item::Func(f) if f.name == "main")) {
+                                if let Expr::Block(stmts, _) = &mut m.body {
+                                    stmts.insert(0, call);
+                                }
+                            }
+                            q.number_calls();
+                            t = render_plain(&q);
+                            cx.report.count("programs_with_twin_functions", 1);
+                        }
+                    }
+                }
                 if i % 7 == 3 {
                     // a program that must be rejected, with a message
                     t = t.replacen("fn main()", "fn main(x: u8)", 1);
